@@ -300,6 +300,14 @@ pub(crate) fn canonical_target(path: &Path) -> PathBuf {
     }
 }
 
+/// Verification hook: the crate-private resolution of scan targets (`--include` over paths,
+/// one spelling per target, nested targets dropped).
+#[cfg(feature = "verif")]
+#[must_use]
+pub fn verif_resolve_scan_paths(paths: &[PathBuf], include: &[String]) -> Vec<PathBuf> {
+    resolve_scan_paths(paths, include)
+}
+
 /// Verification hook: the crate-private target normalisation.
 #[cfg(feature = "verif")]
 #[must_use]
